@@ -7,7 +7,9 @@
    (1) The route cache (Model/Router.v, proofs in Proofs/RouterCache.v).  Model of
        simaple/simulate/base.py RouterDispatcher: a growing list of dispatchers (primitive = any partial
        function of action and store with an `includes` predicate; ContextDispatcher = re-entrant call of
-       the router with a fixed action; TandemDispatcher = base + followers), `_route_cache` filled on
+       the router with a fixed action; TandemDispatcher = base + followers, the followers skipped when
+       the base answer contains a rejection -- `is_reject`, a parameter: every theorem holds for every choice),
+       `_route_cache` filled on
        the first dispatch of a signature AFTER the scan loop (so a raising dispatch leaves it
        unwritten), `install` = append WITHOUT touching the cache (as the code does), fuel = nesting
        depth of re-entrant dispatch (out of fuel = RecursionError).  For EVERY dispatcher list, EVERY
@@ -29,6 +31,8 @@
          C02_late_install_is_stale     (computed) the code keeps the old entry, so a dispatcher installed
                                        late is skipped for signatures dispatched before: caching and
                                        cache-free router differ;
+         C02_rejected_base_skips_followers (computed) a Tandem whose base answer is a rejection does not run its
+                                       followers (repair of the C07 audit finding on addons);
          C02_late_install_prefix       what the code does guarantee then: every entry is the filter over
                                        SOME prefix of the installed list.
        No path of simaple installs after dispatch: get_builder adds every component and the timer, then
@@ -61,84 +65,89 @@ From V.Proofs Require Import RouterCache IsolationP.
 From G Require Import Isolation.
 
 Theorem C02_route_cache :
-  forall (Sig Act St Ev : Type) (sig_eqb : Sig -> Sig -> bool) (sig_of : Act -> Sig),
+  forall (Sig Act St Ev : Type) (sig_eqb : Sig -> Sig -> bool) (sig_of : Act -> Sig)
+          (is_reject : Ev -> bool),
         (forall a b : Sig, sig_eqb a b = true -> a = b) ->
         forall (fuel : nat) (ds : list (disp Sig Act St Ev)) (l : list (Act * St)),
-        serve_c Sig Act St Ev sig_eqb sig_of fuel (new_router Sig Act St Ev)
+        serve_c Sig Act St Ev sig_eqb sig_of is_reject fuel (new_router Sig Act St Ev)
           (map Install ds ++ calls Sig Act St Ev l) =
-        serve_nc Sig Act St Ev sig_eqb sig_of fuel nil (map Install ds ++ calls Sig Act St Ev l).
+        serve_nc Sig Act St Ev sig_eqb sig_of is_reject fuel nil (map Install ds ++ calls Sig Act St Ev l).
 Proof. exact @route_cache_ops. Qed.
 
 Theorem C02_route_cache_built_router :
-  forall (Sig Act St Ev : Type) (sig_eqb : Sig -> Sig -> bool) (sig_of : Act -> Sig),
+  forall (Sig Act St Ev : Type) (sig_eqb : Sig -> Sig -> bool) (sig_of : Act -> Sig)
+          (is_reject : Ev -> bool),
         (forall a b : Sig, sig_eqb a b = true -> a = b) ->
         forall (fuel : nat) (ds : list (disp Sig Act St Ev)) (l : list (Act * St)),
-        serve_c Sig Act St Ev sig_eqb sig_of fuel (built Sig Act St Ev ds) (calls Sig Act St Ev l) =
-        map (fun p : Act * St => answer_nc Sig Act St Ev sig_eqb sig_of fuel ds (fst p) (snd p)) l.
+        serve_c Sig Act St Ev sig_eqb sig_of is_reject fuel (built Sig Act St Ev ds) (calls Sig Act St Ev l) =
+        map (fun p : Act * St => answer_nc Sig Act St Ev sig_eqb sig_of is_reject fuel ds (fst p) (snd p)) l.
 Proof. exact @route_cache. Qed.
 
 Theorem C02_route_cache_any_client :
-  forall (Sig Act St Ev : Type) (sig_eqb : Sig -> Sig -> bool) (sig_of : Act -> Sig),
+  forall (Sig Act St Ev : Type) (sig_eqb : Sig -> Sig -> bool) (sig_of : Act -> Sig)
+          (is_reject : Ev -> bool),
         (forall a b : Sig, sig_eqb a b = true -> a = b) ->
-        forall (fuel : nat) (ds : list (disp Sig Act St Ev)) (R1 R2 : Type)
-          (before : client Act St Ev R1) (cl : client Act St Ev R2),
+        forall (fuel : nat) (ds : list (disp Sig Act St Ev)) (R1 R2 : Type) (before : client Act St Ev R1)
+          (cl : client Act St Ev R2),
         snd
-          (run_client Act St Ev (Router.cache Sig) (dispatch_c Sig Act St Ev sig_eqb sig_of fuel ds)
+          (run_client Act St Ev (Router.cache Sig) (dispatch_c Sig Act St Ev sig_eqb sig_of is_reject fuel ds)
              cl
              (fst
                 (run_client Act St Ev (Router.cache Sig)
-                   (dispatch_c Sig Act St Ev sig_eqb sig_of fuel ds) before nil))) =
-        snd (run_client Act St Ev unit (dispatch_nc Sig Act St Ev sig_eqb sig_of fuel ds) cl tt).
+                   (dispatch_c Sig Act St Ev sig_eqb sig_of is_reject fuel ds) before nil))) =
+        snd (run_client Act St Ev unit (dispatch_nc Sig Act St Ev sig_eqb sig_of is_reject fuel ds) cl tt).
 Proof. exact @any_client. Qed.
 
 Theorem C02_route_cache_history_free :
-  forall (Sig Act St Ev : Type) (sig_eqb : Sig -> Sig -> bool) (sig_of : Act -> Sig),
+  forall (Sig Act St Ev : Type) (sig_eqb : Sig -> Sig -> bool) (sig_of : Act -> Sig)
+          (is_reject : Ev -> bool),
         (forall a b : Sig, sig_eqb a b = true -> a = b) ->
         forall (fuel : nat) (ds : list (disp Sig Act St Ev)) (h1 h2 l : list (Act * St)),
         snd
-          (run_ops Sig Act St Ev sig_eqb sig_of fuel
+          (run_ops Sig Act St Ev sig_eqb sig_of is_reject fuel
              (fst
-                (run_ops Sig Act St Ev sig_eqb sig_of fuel (built Sig Act St Ev ds)
+                (run_ops Sig Act St Ev sig_eqb sig_of is_reject fuel (built Sig Act St Ev ds)
                    (calls Sig Act St Ev h1))) (calls Sig Act St Ev l)) =
         snd
-          (run_ops Sig Act St Ev sig_eqb sig_of fuel
+          (run_ops Sig Act St Ev sig_eqb sig_of is_reject fuel
              (fst
-                (run_ops Sig Act St Ev sig_eqb sig_of fuel (built Sig Act St Ev ds)
+                (run_ops Sig Act St Ev sig_eqb sig_of is_reject fuel (built Sig Act St Ev ds)
                    (calls Sig Act St Ev h2))) (calls Sig Act St Ev l)).
 Proof. exact @history_free. Qed.
 
 Theorem C02_route_cache_stays_coherent :
-  forall (Sig Act St Ev : Type) (sig_eqb : Sig -> Sig -> bool) (sig_of : Act -> Sig),
+  forall (Sig Act St Ev : Type) (sig_eqb : Sig -> Sig -> bool) (sig_of : Act -> Sig)
+          (is_reject : Ev -> bool),
         (forall a b : Sig, sig_eqb a b = true -> a = b) ->
-        forall (ds : list (disp Sig Act St Ev)) (fuel : nat) (c : Router.cache Sig) 
-          (a : Act) (st : St),
+        forall (ds : list (disp Sig Act St Ev)) (fuel : nat) (c : Router.cache Sig) (a : Act) (st : St),
         Router.Coh Sig Act St Ev sig_eqb ds c ->
         Router.Coh Sig Act St Ev sig_eqb ds
-          (fst (dispatch_c Sig Act St Ev sig_eqb sig_of fuel ds c a st)) /\
-        snd (dispatch_c Sig Act St Ev sig_eqb sig_of fuel ds c a st) =
-        snd (dispatch_nc Sig Act St Ev sig_eqb sig_of fuel ds tt a st).
+          (fst (dispatch_c Sig Act St Ev sig_eqb sig_of is_reject fuel ds c a st)) /\
+        snd (dispatch_c Sig Act St Ev sig_eqb sig_of is_reject fuel ds c a st) =
+        snd (dispatch_nc Sig Act St Ev sig_eqb sig_of is_reject fuel ds tt a st).
 Proof. exact @dispatch_coh. Qed.
 
 Theorem C02_late_install_prefix :
-  forall (Sig Act St Ev : Type) (sig_eqb : Sig -> Sig -> bool) (sig_of : Act -> Sig),
+  forall (Sig Act St Ev : Type) (sig_eqb : Sig -> Sig -> bool) (sig_of : Act -> Sig)
+          (is_reject : Ev -> bool),
         (forall a b : Sig, sig_eqb a b = true -> a = b) ->
         forall (fuel : nat) (ops : list (rop Sig Act St Ev)),
         CohPrefix Sig Act St Ev sig_eqb
-          (dsp (fst (run_ops Sig Act St Ev sig_eqb sig_of fuel (new_router Sig Act St Ev) ops)))
-          (rc (fst (run_ops Sig Act St Ev sig_eqb sig_of fuel (new_router Sig Act St Ev) ops))).
+          (dsp (fst (run_ops Sig Act St Ev sig_eqb sig_of is_reject fuel (new_router Sig Act St Ev) ops)))
+          (rc (fst (run_ops Sig Act St Ev sig_eqb sig_of is_reject fuel (new_router Sig Act St Ev) ops))).
 Proof. exact @late_install_prefix_new. Qed.
 
 Theorem C02_late_install_is_stale :
   let ops :=
           Install (RouterExamples.P 0 (1 :: 7 :: nil))
           :: Dispatch 1 nil
-             :: Install (RouterExamples.P 3 (1 :: 7 :: nil))
-                :: Dispatch 1 nil :: Dispatch 7 nil :: nil in
-        serve_c nat nat (list (nat * nat)) nat PeanoNat.Nat.eqb RouterExamples.sg 5
+             :: Install (RouterExamples.P 3 (1 :: 7 :: nil)) :: Dispatch 1 nil :: Dispatch 7 nil :: nil in
+        serve_c nat nat (list (nat * nat)) nat PeanoNat.Nat.eqb RouterExamples.sg RouterExamples.norej 5
           (new_router nat nat (list (nat * nat)) nat) ops =
         Some ((0, 1) :: nil, 0 :: nil)
         :: Some ((0, 1) :: nil, 0 :: nil) :: Some ((0, 7) :: (3, 7) :: nil, 0 :: 3 :: nil) :: nil /\
-        serve_nc nat nat (list (nat * nat)) nat PeanoNat.Nat.eqb RouterExamples.sg 5 nil ops =
+        serve_nc nat nat (list (nat * nat)) nat PeanoNat.Nat.eqb RouterExamples.sg RouterExamples.norej 5 nil
+          ops =
         Some ((0, 1) :: nil, 0 :: nil)
         :: Some ((0, 1) :: (3, 1) :: nil, 0 :: 3 :: nil)
            :: Some ((0, 7) :: (3, 7) :: nil, 0 :: 3 :: nil) :: nil.
@@ -148,21 +157,20 @@ Theorem C02_deterministic_engine :
   forall (St Ev Act Ck H T D Name : Type) (play : St -> Act -> St * list Ev) 
           (save : St -> Ck) (restore : Ck -> St) (clock : St -> T) (inspect : Name -> St -> D)
           (mk_act : Name -> meth -> option T -> Act) (star : Name) (ev_name : Ev -> Name)
-          (ev_delay : Ev -> option T) (name_eqb : Name -> Name -> bool) 
-          (tzero : T) (tpos tis0 : T -> bool) (H0 : H)
-          (hashf : H -> cmd T Name -> list (T * Act * list Ev) -> H)
+          (ev_delay : Ev -> option T) (name_eqb : Name -> Name -> bool) (tzero : T) 
+          (tpos tis0 : T -> bool) (H0 : H) (hashf : H -> cmd T Name -> list (T * Act * list Ev) -> H)
           (e1 e2 : eng St Ev Act Ck H T D Name) (cs : list (cmd T Name)),
         Coh St Ev Act Ck H T D Name restore e1 ->
         Coh St Ev Act Ck H T D Name restore e2 ->
         logs St Ev Act Ck H T D Name e1 = logs St Ev Act Ck H T D Name e2 ->
         match
-          run St Ev Act Ck H T D Name play save restore clock inspect mk_act star ev_name ev_delay
-            name_eqb tzero tpos tis0 H0 hashf e1 cs
+          run St Ev Act Ck H T D Name play save restore clock inspect mk_act star ev_name ev_delay name_eqb
+            tzero tpos tis0 H0 hashf e1 cs
         with
         | Some a =>
             match
-              run St Ev Act Ck H T D Name play save restore clock inspect mk_act star ev_name
-                ev_delay name_eqb tzero tpos tis0 H0 hashf e2 cs
+              run St Ev Act Ck H T D Name play save restore clock inspect mk_act star ev_name ev_delay
+                name_eqb tzero tpos tis0 H0 hashf e2 cs
             with
             | Some b =>
                 logs St Ev Act Ck H T D Name a = logs St Ev Act Ck H T D Name b /\
@@ -171,8 +179,8 @@ Theorem C02_deterministic_engine :
             end
         | None =>
             match
-              run St Ev Act Ck H T D Name play save restore clock inspect mk_act star ev_name
-                ev_delay name_eqb tzero tpos tis0 H0 hashf e2 cs
+              run St Ev Act Ck H T D Name play save restore clock inspect mk_act star ev_name ev_delay
+                name_eqb tzero tpos tis0 H0 hashf e2 cs
             with
             | Some _ => False
             | None => True
@@ -200,6 +208,13 @@ Theorem C02_spec_repository_hands_out_copies :
         has_return iso_repo_get_all = true /\ has_return iso_interpret = true.
 Proof. exact @repository_hands_out_copies. Qed.
 
+Theorem C02_rejected_base_skips_followers :
+  serve_c nat nat (list (nat * nat)) nat PeanoNat.Nat.eqb RouterExamples.sg 
+          (PeanoNat.Nat.eqb 1) 5 (built nat nat (list (nat * nat)) nat RouterExamples.ds3)
+          (calls nat nat (list (nat * nat)) nat ((1, nil) :: (7, nil) :: nil)) =
+        Some ((0, 1) :: (1, 1) :: nil, 0 :: 1 :: nil) :: Some ((0, 7) :: (2, 7) :: nil, 0 :: 2 :: nil) :: nil.
+Proof. exact @RouterExamples.rejected_base_skips_followers. Qed.
+
 Print Assumptions C02_route_cache.
 Print Assumptions C02_route_cache_built_router.
 Print Assumptions C02_route_cache_any_client.
@@ -211,3 +226,4 @@ Print Assumptions C02_deterministic_engine.
 Print Assumptions C02_no_entropy_imports.
 Print Assumptions C02_process_wide_state_reviewed.
 Print Assumptions C02_spec_repository_hands_out_copies.
+Print Assumptions C02_rejected_base_skips_followers.
